@@ -127,7 +127,7 @@ func judgeTiming(j *judge, out *runOutcome, host hostResult, l layout, res *case
 			}
 		}
 	}
-	if hit, at, n := releasedByEndingWaveWithOverflow(out.rec.order, 16); hit {
+	if hit, at, n := releasedByEndingWaveWithOverflow(out.rec.order, 16, out.panicVal == nil); hit {
 		// the scheduler's barrier buffer holds 16 wavefronts; the others are
 		// re-evaluated every cycle and a release by s_endpgm leaves them there
 		j.rec.Count("barrier_released_by_ending_wavefront_with_more_than_16_waiting", 1)
@@ -164,6 +164,7 @@ func judgeTiming(j *judge, out *runOutcome, host hostResult, l layout, res *case
 		res.maxLate = late
 	}
 	rec.Count("max_barrier_lateness_sum", late)
+	j.countExitOrders(groups, k.W)
 
 	// R4: completion messages, as they leave the compute unit
 	sentCount := map[string]int{}
